@@ -1,6 +1,7 @@
 package main
 
 import (
+	"os"
 	"fmt"
 	"go/constant"
 	"go/token"
@@ -141,6 +142,119 @@ type rolloutDecisionModel struct {
 	sum     *ssa.Call
 	okHash  bool
 	whyHash string
+	paths         []pathInfo
+	pathsComplete bool
+}
+
+// isCookieValue: v loads the Value field of the cookie the decision looked up.
+func (d *rolloutDecisionModel) isCookieValue(v ssa.Value) bool {
+	f, base, ok := fieldLoad(v)
+	return ok && d.ck != nil && f.Name() == "Value" && base == resultOf(d.ck, 0)
+}
+
+// valueOn: what the decision's value is on path p (false when the path ends before the value exists).
+func (d *rolloutDecisionModel) valueOn(p pathInfo) (ssa.Value, bool) {
+	hv := resolve(p.pathValue(d.val))
+	if phi, still := hv.(*ssa.Phi); still {
+		_ = phi
+		return nil, false
+	}
+	if in, ok := hv.(ssa.Instruction); ok && in.Block() != nil {
+		on := false
+		for _, b := range p.blocks {
+			if b == in.Block() {
+				on = true
+			}
+		}
+		if !on {
+			return nil, false
+		}
+	}
+	if def, ok := d.val.(ssa.Instruction); ok && def.Block() != nil {
+		on := false
+		for _, b := range p.blocks {
+			if b == def.Block() {
+				on = true
+			}
+		}
+		if !on {
+			return nil, false
+		}
+	}
+	return hv, true
+}
+
+// emptinessOn: what path p knows about the value being empty.
+func (d *rolloutDecisionModel) emptinessOn(p pathInfo) (empty, nonEmpty bool) {
+	hv, defined := d.valueOn(p)
+	if defined {
+		if sv, ok := constString(hv); ok && sv == "" {
+			return true, false
+		}
+	}
+	for _, ce := range p.conds {
+		cm, isCmp := ce.asCmp()
+		if !isCmp || (cm.op != token.EQL && cm.op != token.NEQ) {
+			continue
+		}
+		for _, pr := range [][2]ssa.Value{{cm.x, cm.y}, {cm.y, cm.x}} {
+			e, isE := constString(pr[1])
+			if !isE || e != "" {
+				continue
+			}
+			x := resolve(pr[0])
+			same := x == d.val || (defined && (x == hv || (d.isCookieValue(x) && d.isCookieValue(hv))))
+			if same {
+				if cm.op == token.EQL {
+					empty = true
+				} else {
+					nonEmpty = true
+				}
+			}
+		}
+	}
+	return empty, nonEmpty
+}
+
+// nonEmptyAt: every way of reaching block b knows the value to be non-empty.
+func (d *rolloutDecisionModel) nonEmptyAt(b *ssa.BasicBlock) bool {
+	n := 0
+	for _, p := range d.paths {
+		through := false
+		var upTo pathInfo
+		for i, pb := range p.blocks {
+			if pb == b {
+				through = true
+				upTo = pathInfo{blocks: p.blocks[:i+1]}
+				break
+			}
+		}
+		if !through {
+			continue
+		}
+		// only what was decided before b counts
+		for _, ce := range p.conds {
+			if ce.ifIn != nil {
+				for _, pb := range upTo.blocks[:len(upTo.blocks)-1] {
+					if pb == ce.ifIn.Block() {
+						upTo.conds = append(upTo.conds, ce)
+					}
+				}
+			}
+		}
+		n++
+		if _, ne := d.emptinessOn(upTo); !ne {
+			if os.Getenv("KP_DBG") != "" {
+				hv, def := d.valueOn(upTo)
+				fmt.Fprintf(os.Stderr, "DBG nonEmptyAt b=%d blocks=%d conds=%d hv=%v def=%v val=%v\n", b.Index, len(upTo.blocks), len(upTo.conds), hv, def, d.val)
+				for _, ce := range upTo.conds {
+					fmt.Fprintf(os.Stderr, "   cond %v taken=%v\n", ce.cond, ce.taken)
+				}
+			}
+			return false
+		}
+	}
+	return n > 0
 }
 
 func (c *Ctx) rolloutDecision() *rolloutDecisionModel {
@@ -159,7 +273,26 @@ func (c *Ctx) rolloutDecision() *rolloutDecisionModel {
 	if nck != 1 {
 		d.ck = nil
 	}
-	// the value: what is compared with ""
+	// the value: what is hashed (when there is exactly one hasher with one Write); else what is compared with ""
+	var hashed ssa.Value
+	{
+		var hs []*ssa.Call
+		for _, cs := range callsToName(root, "hash/fnv.New32a") {
+			if call, ok := cs.instr.(*ssa.Call); ok {
+				hs = append(hs, call)
+			}
+		}
+		if len(hs) == 1 {
+			for _, cs := range callsIn(root) {
+				cc := cs.common()
+				if cc.IsInvoke() && cc.Value == ssa.Value(hs[0]) && cc.Method.Name() == "Write" {
+					if cv, ok := cc.Args[0].(*ssa.Convert); ok {
+						hashed = resolve(cv.X)
+					}
+				}
+			}
+		}
+	}
 	vals := map[ssa.Value]bool{}
 	for _, b := range root.Blocks {
 		for _, in := range b.Instrs {
@@ -176,33 +309,51 @@ func (c *Ctx) rolloutDecision() *rolloutDecisionModel {
 			}
 		}
 	}
-	if len(vals) == 1 {
+	switch {
+	case hashed != nil:
+		d.val = hashed
+	case len(vals) == 1:
 		for v := range vals {
 			d.val = v
 		}
-	} else {
+	default:
 		d.whyVal = fmt.Sprintf("%d different values are compared with \"\"", len(vals))
 	}
-	if d.val != nil && d.ck != nil {
-		at := root.Blocks[0]
-		if def, ok := d.val.(ssa.Instruction); ok && def.Block() != nil {
-			at = def.Block()
-		}
+	d.paths, d.pathsComplete = enumPathsX(root, func(*ssa.Return) bool { return true }, 4096)
+	if d.val != nil && d.ck != nil && d.pathsComplete {
+		// way by way through the function: where the value is defined it is cookie.Value (lookup succeeded) or "" (lookup
+		// failed, or the cookie's value is itself empty)
 		nV, nE, bad := 0, 0, 0
-		for _, vc := range valueCases(d.val, at) {
-			isNil, nonNil := nilKnowledgeOf(vc.conds, sameAs(errResultOf(d.ck)))
-			if f, base, ok := fieldLoad(vc.val); ok && f.Name() == "Value" && base == resultOf(d.ck, 0) && isNil {
+		for _, p := range d.paths {
+			hv, defined := d.valueOn(p)
+			if !defined {
+				continue
+			}
+			isNil, nonNil := nilKnowledgeOf(p.conds, sameAs(errResultOf(d.ck)))
+			if d.isCookieValue(hv) && isNil {
 				nV++
 				continue
 			}
-			if s, ok := constString(vc.val); ok && s == "" && nonNil {
-				nE++
-				continue
+			if sv, ok := constString(hv); ok && sv == "" {
+				emptyCookie := false
+				for _, ce := range p.conds {
+					if cm, isCmp := ce.asCmp(); isCmp && cm.op == token.EQL {
+						for _, pr := range [][2]ssa.Value{{cm.x, cm.y}, {cm.y, cm.x}} {
+							if e, isE := constString(pr[1]); isE && e == "" && d.isCookieValue(resolve(pr[0])) {
+								emptyCookie = true
+							}
+						}
+					}
+				}
+				if nonNil || (isNil && emptyCookie) {
+					nE++
+					continue
+				}
 			}
 			bad++
 		}
 		d.okVal = nV >= 1 && nE >= 1 && bad == 0
-		d.whyVal = fmt.Sprintf("cookie.Value on success: %d way(s), \"\" on error: %d way(s), anything else: %d", nV, nE, bad)
+		d.whyVal = fmt.Sprintf("cookie.Value on success: %d way(s), \"\" on error / empty cookie: %d way(s), anything else: %d", nV, nE, bad)
 	}
 	// the hash
 	var hashers []*ssa.Call
@@ -565,18 +716,7 @@ func r103(c *Ctx) {
 		c.undecided(rule, "RequestUsesRolloutGroup/shape", uses.Pos(), "no single value is tested against the empty string: "+d.whyVal)
 		return
 	}
-	nonEmptyAt := func(b *ssa.BasicBlock) bool {
-		for _, ce := range dominatingConds(b) {
-			if cm, ok := ce.asCmp(); ok && cm.op == token.NEQ {
-				for _, pr := range [][2]ssa.Value{{cm.x, cm.y}, {cm.y, cm.x}} {
-					if s, ok := constString(pr[1]); ok && s == "" && resolve(pr[0]) == d.val {
-						return true
-					}
-				}
-			}
-		}
-		return false
-	}
+	nonEmptyAt := d.nonEmptyAt
 	// what consults the allowlist or the hash does so for a non-empty cookie value only
 	allowF := c.field("RolloutController", "Allowlist")
 	nMember := 0
@@ -608,16 +748,22 @@ func r103(c *Ctx) {
 		why := ""
 		if b, isC := constBool(v); isC {
 			if !b {
-				// false: only for the empty value
-				for _, ce := range rc.conds {
-					if cm, isCmp := ce.asCmp(); isCmp && cm.op == token.EQL {
-						for _, pr := range [][2]ssa.Value{{cm.x, cm.y}, {cm.y, cm.x}} {
-							if s, isS := constString(pr[1]); isS && s == "" && resolve(pr[0]) == d.val {
-								ok = true
-							}
-						}
+				// false: only for the empty value - on every way of getting to this answer
+				nF := 0
+				ok = true
+				for _, p := range d.paths {
+					if p.ret != rc.ret {
+						continue
+					}
+					if k, isK := constBool(p.pathValue(retVal(p.ret, 0))); !isK || k {
+						continue
+					}
+					nF++
+					if empty, _ := d.emptinessOn(p); !empty {
+						ok = false
 					}
 				}
+				ok = ok && nF >= 1
 				why = "a constant false answer is for the empty cookie value only"
 			} else {
 				// true: a membership verdict known true, or element == value inside a complete scan of the list
